@@ -11,10 +11,11 @@ import numpy
 
 from lib import common as C
 from lib import c01_util as U
+from lib import c01_compose as K   # glue of the composed statements (Props/C01_composed.v): stage in front of the tails
 from props import C09 as N  # generators and Coq printers of the shared domain vocabulary (imported, not edited)
 
 PROP = "C01"
-PROPS_FILES = ["Props/C01.v", "Props/C01_refuted.v", "Props/C01_softmax.v"]
+PROPS_FILES = ["Props/C01.v", "Props/C01_refuted.v", "Props/C01_softmax.v", "Props/C01_composed.v"]
 ASSUMPTIONS = [
   "what the optimisers and one-hot samplers hand to the endpoint tail lies in the relaxed box and satisfies the double-typed "
   "constraints (relaxed_ok): conclusion of C07 / C08 under their own contracts (SciPy results leaving the domain are discarded "
@@ -453,13 +454,21 @@ def correspondence(ctx):
     dis.append(dict(what=f"C01 correspondence case {i} ({m['kind']}): implementation output differs from Model.EndpointTail / its specification",
                     kind=m["kind"], input=m.get("input", m), observed=m.get("out")))
   dis = [d for d in dis if not d.get("known")]
-  return dict(evaluations=len(cases), distinct_nontrivial=nontriv,
+  # layer (iv): the glue of the composed statements (optimiser / sampler stage), Model/Compose01Corr.v
+  kn, kdist, kdis, kmeta = K.run(ctx)
+  dist.update(kdist)
+  dis += kdis
+  nontriv += len({C.canon_hash(m) for m in kmeta})
+  return dict(evaluations=len(cases) + kn, distinct_nontrivial=nontriv,
               rule="layer (i): convert_from_one_hot with a linear acquisition function on dyadic relaxed points (corners, ties, constraint "
                    "faces; every neighbour-search option), replace_duplicate_points on duplicate-heavy / exhausted discrete and mixed "
                    "domains with every draw scripted, task snapping, softmax parameters; layer (ii): GP and search views with the optimiser "
                    "stubbed to return adversarial feasible relaxed points (duplicates, tasks, int constraints, qEI); layer (iii): real calls "
                    "of all five endpoints; non-trivial = neighbour search active or several rows (conv), output differs from the proposals "
-                   "(replace), at least one point returned (responses); distinct by hash of the canonical input",
+                   "(replace), at least one point returned (responses); distinct by hash of the canonical input; layer (iv): the real one-hot "
+                   "domain construction, one-hot sampler, vectorized_acquisition_optimization and the constant-liar loop with a scripted "
+                   "acquisition function and scripted draws against Model.Compose01 (exact on unconstrained search domains, specification "
+                   "with 1e-9 on constrained ones), every case counted",
               samples=[dict((k, v) for k, v in m.items() if k != "out") for m in meta[:2]], distribution=dist, disagreements=dis)
 
 
